@@ -221,6 +221,15 @@ class ToyContext:
     def query_message_sizes(self):
         return type("Sizes", (), {"header": self.o.header_len})()
 
+    @property
+    def context_attr(self):
+        """what the peer's final token negotiated (pyspnego: ContextReq flags): integrity and confidentiality unless the owner says the
+        acceptor cleared them — then, like pyspnego's NTLM without SIGN / SEAL, the context refuses to wrap or unwrap"""
+        import spnego
+        if getattr(self.o, "no_protection", False):
+            return spnego.ContextReq(0)
+        return spnego.ContextReq.integrity | spnego.ContextReq.confidentiality | spnego.ContextReq.sequence_detect | spnego.ContextReq.replay_detect
+
     @staticmethod
     def _parts(iov):
         import spnego.iov
@@ -230,6 +239,8 @@ class ToyContext:
         return t0 == spnego.iov.BufferType.sign_only, bytes(header), bytes(body), bytes(trailer), last
 
     def wrap_iov(self, iov, encrypt=True, qop=None):
+        if getattr(self.o, "no_protection", False):
+            raise AuthError("wrap without integrity or confidentiality")
         sign, header, body, trailer, _ = self._parts(iov)
         if not encrypt:
             raise AuthError("request not sealed")
@@ -238,6 +249,8 @@ class ToyContext:
         return _Res([header, sealed, trailer, sig])
 
     def unwrap_iov(self, iov):
+        if getattr(self.o, "no_protection", False):
+            raise AuthError("unwrap without integrity or confidentiality")
         sign, header, body, trailer, last = self._parts(iov)
         signature = bytes(last[1])
         self.o.unwrap_calls.append((header, body, trailer, signature, sign))
@@ -251,7 +264,8 @@ def _provider_class():
     from dpapi_ng._rpc import SecurityProvider
 
     class ScriptedProvider(AuthenticationProvider):
-        def __init__(self, script=(), header_len=16, provider=10):
+        def __init__(self, script=(), header_len=16, provider=10, no_protection=False):
+            self.no_protection = no_protection  # the acceptor negotiated neither integrity nor confidentiality
             self.script = list(script)          # [(out_token, complete_after)]
             self.fed = []
             self.header_len = header_len
